@@ -42,7 +42,7 @@ ASSUMPTIONS = {
             'feasibility clause uses the estimator\'s own measure model.primal_feasibility(marginals) < 1.0'],
 }
 TIERS = {
-    'C16': {'quick': dict(runs=1600, budget_s=480, hashseeds=4, minimise_s=90),
+    'C16': {'quick': dict(runs=2400, budget_s=600, hashseeds=4, minimise_s=90),
             'thorough': dict(runs=None, budget_s=600, hashseeds=16, minimise_s=240)},
     'C18': {'quick': dict(runs=640, budget_s=360, hashseeds=4, minimise_s=120, grace_s=240),
             'thorough': dict(runs=None, budget_s=900, hashseeds=16, minimise_s=300, grace_s=300)},
@@ -160,7 +160,7 @@ def gen_case(rnd, prop, tier):
         if rnd.random() < 0.12:
             calls[-1]['ninf'] = rnd.choice([0.1, 0.25])      # structural zeros (-inf entries) in the last call's potentials; one joint cell stays possible
         return dict(engine='F', attrs=attrs, sizes=sizes, cliques=cliques, oracle=oracle, structure=structure, calls=calls,
-                    damping=rnd.choice([0.5, 0.5, 0.5, 0.25, 0.75, 0.9]) if oracle == 'gbp' else None,
+                    damping=rnd.choice([0.5, 0.5, 0.5, 0.5, 0.25, 0.75, 0.85]) if oracle == 'gbp' else None,
                     clone_at=rnd.randrange(len(calls)) if rnd.random() < 0.2 else None,
                     total0=rnd.choice([1.0, 10.0, 100.0]), tie=rnd.choice([None, None, rnd.getrandbits(32)]), fresh_names=rnd.random() < 0.35,
                     decoy=rnd.random() < 0.3)
